@@ -1,4 +1,3 @@
-from math import ceil
 from typing import Optional
 from typing import Tuple
 
@@ -129,7 +128,7 @@ class HestonStock(BasePrimary):
 
         output = generate_heston(
             n_paths=n_paths,
-            n_steps=ceil(time_horizon / self.dt + 1),
+            n_steps=self._get_n_steps(time_horizon),
             init_state=init_state,
             kappa=self.kappa,
             theta=self.theta,
